@@ -40,4 +40,16 @@ theorem C16_bool_only (v : JVal) (b : Bool) (h : valueToBool v = .ok b) :
 theorem C16_number_not_bool (n : Int) (h0 : n ≠ 0) (h1 : n ≠ 1) : ∃ e, valueToBool (.int n) = .err e := by
   simp [valueToBool, h0, h1]
 
+/-- **An accepted reference names an output by a 32-bit index**: whatever text `string_to_utxo_ref` accepts, the index
+it hands on is below 2^32 (a larger one is refused, never reduced modulo 2^32 - the clause seed C16-09 went against). -/
+theorem C16_utxo_ref_index_fits (s : String) (r : UtxoRef) (h : stringToUtxoRef s = .ok r) : r.index < 2 ^ 32 := by
+  unfold stringToUtxoRef at h
+  split at h
+  · cases h
+  · split at h
+    · split at h
+      · rename_i hlt; cases h; exact hlt
+      · cases h
+    · cases h
+
 end Tx3.Json
